@@ -386,6 +386,39 @@ func runCheck(args []string, repo, specs, tier string, jobs int, verbose bool) i
 	eb, _ := json.MarshalIndent(ev, "", " ")
 	os.WriteFile(filepath.Join(evDir, prop+".json"), eb, 0o644)
 
+	// disk: keep the queries of undischarged obligations and of the samples named in the evidence,
+	// drop the rest (a run writes several thousand SMT-LIB files)
+	if os.Getenv("VERIF_KEEP_QUERIES") == "" {
+		keep := map[string]bool{}
+		for _, sm := range samples {
+			if m, ok := sm.(map[string]interface{}); ok {
+				if f, ok := m["smt2"].(string); ok {
+					keep[strings.TrimSuffix(f, ".smt2")] = true
+				}
+			}
+		}
+		for _, r := range results {
+			if r.Status != "discharged" {
+				keep[strings.TrimSuffix(r.File, ".smt2")] = true
+			}
+		}
+		if ents, err := os.ReadDir(work); err == nil {
+			for _, en := range ents {
+				n := en.Name()
+				if !strings.HasSuffix(n, ".smt2") {
+					continue
+				}
+				base := filepath.Join(work, n)
+				if i := strings.Index(n, "."); i > 0 {
+					base = filepath.Join(work, n[:i])
+				}
+				if !keep[base] {
+					os.Remove(filepath.Join(work, n))
+				}
+			}
+		}
+	}
+
 	fmt.Printf("%s: %d obligations, %d discharged, %d known findings, %d violations (%.1fs)\n", prop, total, nDis, nKnown+len(boundedKnown), nViol, time.Since(start).Seconds())
 	for _, l := range violLines {
 		fmt.Println(l)
